@@ -22,9 +22,10 @@ ASSUMPTIONS = [
 ]
 CHUNK = 2
 
-COND = 'run_experiment(name="e1", run="./e1.sh")\nrun_experiment(name="e2", run="./e2.sh", deps=[":e1"], parallelizable=True)\n'
-BEH_OK = {"//:e1": {"files": {"result": "r1"}}, "//:e2": {"files": {"result": "r2"}}}
-CMDS = ["ok", "ok-j2", "fail-e1", "fail-e2", "sigint-e2", "restore-old", "restore-new", "gc"]
+COND = 'run_experiment(name="e1", run="./e1.sh", deps=["//p/q:e0"])\nrun_experiment(name="e2", run="./e2.sh", deps=[":e1"], parallelizable=True)\n'
+COND_PQ = 'run_experiment(name="e0", run="./e0.sh")\n'
+BEH_OK = {"//:e1": {"files": {"result": "r1"}}, "//:e2": {"files": {"result": "r2"}}, "//p/q:e0": {"files": {"result": "r0"}}}
+CMDS = ["ok", "ok-j2", "fail-e0", "fail-e1", "fail-e2", "sigint-e2", "restore-old", "restore-new", "gc"]
 STEPS = [0, 1, -5]
 T0 = 1_700_000_000
 VERS = re.compile(r"\.task\.(\d+)$")
@@ -37,7 +38,7 @@ def warmup():
 def make_archives():
     out = {}
     for name, t in (("old", T0 - 1000), ("new", T0 + 1_000_000)):
-        root = driver.fresh_project({"COND": COND}, name="c08src")
+        root = driver.fresh_project({"COND": COND, "p/q/COND": COND_PQ}, name="c08src")
         hist.run(root, ["run", "//:e2"], clock=driver.Clock(t), behaviours=BEH_OK)
         arch = os.path.join(root, "A.tar.gz")
         r = hist.run(root, ["archive", "-o", arch])
@@ -60,14 +61,16 @@ def do_command(root, cmd, clock_t, archives, check):
     """Execute one command; check(kind, ...) collects violations.  Returns description."""
     rows_before = hist.rows(root) or []
     tree_before = hist.data_tree(root)
-    recorded = {"%s.task.%d" % (r[0].split(":")[1], r[1]): None for r in rows_before}
+    recorded = {os.path.join(r[0][2:].split(":")[0], "%s.task.%d" % (r[0].split(":")[1], r[1])): None for r in rows_before}
     for d in recorded:
         recorded[d] = hist.subtree(tree_before, d)
-    listing_before = set(os.listdir(os.path.join(root, "cond-out"))) if os.path.isdir(os.path.join(root, "cond-out")) else set()
+    listing_before = {k for k, v in tree_before.items() if v[0] == "d"}
     ck = driver.Clock(clock_t)
     res = None
-    if cmd in ("ok", "ok-j2", "fail-e1", "fail-e2", "sigint-e2"):
+    if cmd in ("ok", "ok-j2", "fail-e0", "fail-e1", "fail-e2", "sigint-e2"):
         beh = {k: dict(v) for k, v in BEH_OK.items()}
+        if cmd == "fail-e0":
+            beh["//p/q:e0"]["status"] = 256
         if cmd == "fail-e1":
             beh["//:e1"]["status"] = 256
         if cmd == "fail-e2":
@@ -94,7 +97,7 @@ def do_command(root, cmd, clock_t, archives, check):
             if v <= last and last != maxrow:
                 check("version:not-increasing", "%s got version %d after %d was handed out in the same invocation" % (e[2], v, last))
             last = max(last, v)
-            base = os.path.basename(info["out"])
+            base = os.path.relpath(info["out"], os.path.join(root, "cond-out"))
             if base in listing_before:
                 check("dir:reused", "%s was given COND_OUT %s which already existed before the command (leftover of an earlier execution)" % (e[2], base))
             junk = [x for x in (info["out_listing"] or []) if x not in ("stdout.log", "stderr.log")]
@@ -125,7 +128,7 @@ def run_item(item, tier):
     found = {}
     archives = make_archives()
     letters = [(c, s) for c in CMDS for s in STEPS]
-    root = driver.fresh_project({"COND": COND}, name="c08")
+    root = driver.fresh_project({"COND": COND, "p/q/COND": COND_PQ}, name="c08")
     os.makedirs(os.path.join(root, "cond-out"), exist_ok=True)
 
     def explore_from(history, clock_t, depth_left):
@@ -156,7 +159,7 @@ def run_item(item, tier):
         ids = sorted({r[1] for r in rows})
         ren = {v: i for i, v in enumerate(ids)}
         t = hist.data_tree(root)
-        canon_tree = sorted((VERS.sub(lambda m: ".task.#%d" % ren.get(int(m.group(1)), -1), k.split(os.sep)[0]) + k[len(k.split(os.sep)[0]):], v[0]) for k, v in t.items())
+        canon_tree = sorted((re.sub(r"\.task\.(\d+)", lambda m: ".task.#%d" % ren.get(int(m.group(1)), -1), k), v[0]) for k, v in t.items())
         res["states"].add(explore.sig([[(r[0], ren[r[1]]) for r in rows], canon_tree]))
 
     t = T0
@@ -175,7 +178,7 @@ def run_item(item, tier):
 def replay(artefact):
     found = {}
     archives = make_archives()
-    root = driver.fresh_project({"COND": COND}, name="c08")
+    root = driver.fresh_project({"COND": COND, "p/q/COND": COND_PQ}, name="c08")
     os.makedirs(os.path.join(root, "cond-out"), exist_ok=True)
     t = T0
     for c, s in artefact["history"]:
